@@ -51,6 +51,8 @@ CONSTANTS
     LatChoices,   \* values (steps) the test may pass to Sim::set_link_latency between steps
     MaxLat,       \* number of set_link_latency calls
     Writers,      \* hosts whose programs may write
+    Early,        \* TRUE: the handshake is not varied (listen and connect in step 1, accept in step 2,
+                  \* latency changes from then on) - keeps the reordering configurations small
     WriterFixed,  \* TRUE: an arriving RST wakes a parked writer and writes on a reset stream fail at once
                   \* (commit 12fd6eb; FALSE = the code before it: the writer stays parked forever)
     HalfOpenFixed \* TRUE: a connect that is abandoned while pending sends an RST to the listener
@@ -273,7 +275,7 @@ NewOp(id, h, kind, c, res) ==
     /\ oc' = oc @@ (id :> c)
 
 CmdListen ==        \* TcpListener::bind("0.0.0.0:80") on the listening host
-    /\ CanCmd(Lis, "listen")
+    /\ CanCmd(Lis, "listen") /\ (Early => pstep = 1)
     /\ LET res == IF lst.bound THEN "inuse" ELSE "ok" IN
        /\ NewOp(nid + 1, Lis, "listen", 0, res)
        /\ lst' = IF lst.bound THEN lst ELSE [bound |-> TRUE, since |-> pstep, q |-> <<>>]
@@ -282,7 +284,7 @@ CmdListen ==        \* TcpListener::bind("0.0.0.0:80") on the listening host
     /\ UNCHANGED <<pstep, pdg, phase, todo, cur, hs, ud, cn, net, ndg, nflt, wk, plat, dlv, nlat>>
 
 CmdAccept ==        \* a task of the listening host calls accept(); the listener was bound in an earlier turn
-    /\ CanCmd(Lis, "accept") /\ lst.bound /\ lst.since < pstep
+    /\ CanCmd(Lis, "accept") /\ lst.bound /\ lst.since < pstep /\ (Early => pstep = 2)
     /\ PendOps(Lis, "accept", 0) = {} /\ <<"accept", 0>> \notin wk
     \* (at most one accept / read / write per stream is outstanding at any moment of a turn: an
     \*  operation that returned at the start of this turn was still pending when the program ran)
@@ -300,7 +302,7 @@ CmdAccept ==        \* a task of the listening host calls accept(); the listener
     /\ UNCHANGED <<pstep, pdg, phase, todo, cur, hs, ud, net, ndg, nflt, wk, plat, dlv, nlat>>
 
 CmdConnect ==       \* a task of the connecting host calls TcpStream::connect("<listener>:80")
-    /\ CanCmd(Con, "connect") /\ Len(cn) < MaxConn
+    /\ CanCmd(Con, "connect") /\ Len(cn) < MaxConn /\ (Early => pstep = 1)
     \* Tcp::receive_from_network panics ("server socket buffer full") when a SYN meets a
     \* listener queue that already holds `capacity` requests - a documented panic, kept
     \* out of the alphabet: at most Cap requests are queued or on their way
@@ -460,7 +462,7 @@ Bounce(h, fr) ==
 
 \* Sim::set_link_latency(h1, h2, v) between steps
 SetLat(v) ==
-    /\ phase = "ctl" /\ v \in LatChoices /\ v # plat /\ nlat < MaxLat
+    /\ phase = "ctl" /\ v \in LatChoices /\ v # plat /\ nlat < MaxLat /\ (Early => pstep >= 2)
     /\ P_SetLat(v)
     /\ nlat' = nlat + 1
     /\ last' = [a |-> "setlat", v |-> v]
